@@ -18,6 +18,8 @@ from harness.core import enc_val, exc_name
 ID = "C11"
 TITLE = "Crashes and I/O errors in lifecycle operations never lose data or forge a job"
 LEAN_MODULE = "Signac.Properties.C11"
+# the refinement layer: event-free runs of the lifecycle step programs implement the abstract workspace operations
+EXTRA_MODULES = ["Signac.Properties.Refinement"]
 DRIVER = "drv_life"
 DESIGN_REF = "DESIGN.md §4 C11, §2.4, §5 S-11"
 RULE = ("a case = one scenario (operation x destination kind x damage of the pre-state x payload with document, "
@@ -691,7 +693,12 @@ LEVEL_TEXT = ("Proved in Lean for all pre-states, payloads and ALL event schedul
               "state-point file is absent / junk / the source's, absent-or-reported until that file is completely copied); the "
               "full statement is proved FALSE of the model (S-11) and confirmed on the real code. The model is tied to the code "
               "by exact comparison of result, step trace, resulting tree and check() output for every generated event.")
-LEVEL_NOTE = ("Not proved / assumed: steps are atomic at the recorded granularity, no power-loss model; reads never fail; "
+LEVEL_NOTE = ("Refinement layer (Signac/Properties/Refinement.lean, audited with this check): for every clean world an EVENT-FREE run of "
+              "the file-system step program of init / re-key / move / clone / remove / clear ends in a clean world whose "
+              "abstraction is the abstract operation's result (op_refines, history_refines by induction over histories), and "
+              "commutes with the step of the abstract workspace model of C03/C04 (init_square ... clear_square): the crash/fault "
+              "model of C11 and the in-memory model of C03/C04 describe the same operations. "
+              "Not proved / assumed: steps are atomic at the recorded granularity, no power-loss model; reads never fail; "
               "ENOENT is not injected; init with force=True, reset, and a state-point change of a job without state-point "
               "file are outside crash_safe/fault_safe (the latter is modelled and compared, only 'an exception is raised' is "
               "proved); completeness of an undisturbed clone is compared with the real code but not proved; 'validates' = "
